@@ -402,6 +402,8 @@ theorem indexVal_list (s : List Val) (i : Nat) (h : i < s.length) : indexVal (.l
     indexVal (.list (a :: b :: c :: d :: r)) (.int 3) = .ok d := id rfl
 @[simp] theorem indexVal_rec4 (a b c d e : Val) (r : List Val) :
     indexVal (.list (a :: b :: c :: d :: e :: r)) (.int 4) = .ok e := id rfl
+@[simp] theorem indexVal_rec5 (a b c d e f : Val) (r : List Val) :
+    indexVal (.list (a :: b :: c :: d :: e :: f :: r)) (.int 5) = .ok f := id rfl
 
 theorem indexVal_bytes_oob (s : Bytes) (i : Int) (h : i < 0 ∨ (s.length : Int) ≤ i) :
     indexVal (.bytes s) (.int i) = .panic .index := by
